@@ -711,7 +711,19 @@ pub fn gen_storm(r: &mut Rng, fs: f32, max_ticks: f64, events: u64, p_param: f64
                     t[2] = pick_time(r, fs, max_ticks);
                     Op::Release(t[2])
                 }
-                _ => Op::Sustain(pick_level(r)),
+                _ => {
+                    if r.chance(0.4) {
+                        // a slow sweep of the sustain level: tiny steps (down to one ulp) from the level in force
+                        let base = match ops.iter().rev().find_map(|o| if let Op::Sustain(x) = o { Some(*x) } else { None }) {
+                            Some(x) if x.is_finite() => x.max(0.0).min(1.0),
+                            _ => 0.5,
+                        };
+                        let d = *r.pick(&[1.2e-7f32, 1e-6, 1e-5, 1e-4, 5e-4, 1e-3]) * if r.chance(0.5) { 1.0 } else { -1.0 };
+                        Op::Sustain(base + d)
+                    } else {
+                        Op::Sustain(pick_level(r))
+                    }
+                }
             };
             ops.push(op);
         } else {
